@@ -50,13 +50,24 @@ var srcExtractor = utils.ExtractorFunc(func(req *http.Request) (string, int64, e
 	return req.Header.Get("Src"), n, nil
 })
 
+// viaExtractor: per run, the rates reach the limiter either as its default set or through a
+// per-request RateExtractor that returns an equal set every time (so the "update existing buckets"
+// path runs on every access without the configuration ever changing)
+var viaExtractor bool
+
+func drawRateSource(rt *rapid.T) { viaExtractor = rapid.Bool().Draw(rt, "rates-via-extractor") }
+
 func newTLim(rt *rapid.T, rates []rateSpec, capacity int) *tlim {
-	rs := ratelimit.NewRateSet()
-	for _, r := range rates {
-		if err := rs.Add(r.period, r.average, r.burst); err != nil {
-			rt.Fatalf("rate set: %v", err)
+	mk := func() *ratelimit.RateSet {
+		rs := ratelimit.NewRateSet()
+		for _, r := range rates {
+			if err := rs.Add(r.period, r.average, r.burst); err != nil {
+				rt.Fatalf("rate set: %v", err)
+			}
 		}
+		return rs
 	}
+	rs := mk()
 	l := &tlim{}
 	h := http.HandlerFunc(func(w http.ResponseWriter, req *http.Request) {
 		l.handled++
@@ -65,6 +76,12 @@ func newTLim(rt *rapid.T, rates []rateSpec, capacity int) *tlim {
 	var opts []ratelimit.TokenLimiterOption
 	if capacity > 0 {
 		opts = append(opts, ratelimit.Capacity(capacity))
+	}
+	if viaExtractor {
+		// the default set is deliberately different (and tiny): if the extractor's answer were ignored, the twins and bounds would notice
+		rs = ratelimit.NewRateSet()
+		_ = rs.Add(time.Hour, 1, 1)
+		opts = append(opts, ratelimit.ExtractRates(ratelimit.RateExtractorFunc(func(*http.Request) (*ratelimit.RateSet, error) { return mk(), nil })))
 	}
 	lim, err := ratelimit.New(h, srcExtractor, rs, opts...)
 	if err != nil {
@@ -216,7 +233,9 @@ type admitEv struct {
 
 // checkBound verifies, for one source and one rate, that every interval
 // [t_i, t_j] between two admitted requests satisfies
-//   sum(amounts i..j) <= burst + (t_j - t_i)/(period/average) + 1
+//
+//	sum(amounts i..j) <= burst + (t_j - t_i)/(period/average) + 1
+//
 // in exact integer arithmetic (multiply through by the per-token interval).
 func checkBound(evs []admitEv, r rateSpec) (bool, string) {
 	tpt := big.NewInt(int64(r.perToken()))
